@@ -11,6 +11,7 @@ TYPES = [
     'list_int',
     'list_str',
     'list_mixed',
+    'list_numstr',
     'np_int',
     'np_str',
     'pd_index_int',
@@ -22,6 +23,10 @@ TYPES = [
 PANDAS_TYPES = {'pd_index_int', 'pd_index_str', 'pd_period_y', 'pd_period_q', 'pd_datetime'}
 
 _MIXED = ['a', 7, (1, 2), '', 3.5, ('k',), 0, 'Q', 11, (0,), 'mm', -2]
+
+
+def _numstr(j):
+    return (2000 + j if j % 4 == 0 else j + 0.5) if j % 2 == 0 else f'p{j}'
 
 
 def make_span(spec):
@@ -52,6 +57,9 @@ def make_span(spec):
         return [f'q{i % 4}' for i in range(n)]
     if ty == 'list_mixed':
         return [_MIXED[(o + i) % len(_MIXED)] if i < len(_MIXED) else ('more', i) for i in range(n)]
+    if ty == 'list_numstr':
+        # numbers and strings only (nothing that would stop NumPy turning the whole list into strings)
+        return [_numstr(o + i) for i in range(n)]
     if ty == 'np_int':
         return np.arange(o, o + n)
     if ty == 'np_str':
@@ -109,6 +117,12 @@ def absent_label(spec, variant=0, span=None):
             return first + (first - first) + __import__('pandas').Timedelta(hours=12) if variant == 1 else first.to_pydatetime() + datetime.timedelta(seconds=1)
         if ty == 'list_mixed':
             return 'az' if variant == 1 else 7.5
+        if ty == 'list_numstr':
+            # the string spelling of a numeric label, and the number spelt by a string label
+            nums = [x for x in span if not isinstance(x, str)]
+            if variant == 1 and nums:
+                return str(nums[-1])
+            return str(nums[0]) if nums else int(first[1:])
         if isinstance(first, int) and not isinstance(first, bool):
             return first + 0.5 if variant == 1 else str(first)
         if isinstance(first, str):
@@ -118,7 +132,7 @@ def absent_label(spec, variant=0, span=None):
         return spec.get('origin', 0) + 1  # between two labels of the stepped range
     if ty in ('range', 'list_int', 'np_int', 'pd_index_int'):
         return spec.get('origin', 0) + spec['n'] + 5
-    if ty in ('list_str', 'np_str', 'pd_index_str', 'list_mixed'):
+    if ty in ('list_str', 'np_str', 'pd_index_str', 'list_mixed', 'list_numstr'):
         return 'nope'
     if ty in ('pd_period_y', 'pd_period_q'):
         return '1971'
